@@ -55,6 +55,8 @@ def run_verus(unit_path, canary=False):
     res = run_verus_once(unit_path, canary, seed=None)
     if canary or res.get('status') not in ('failed', 'undecided') or 'em' not in res:
         return res
+    def fkeys(a):
+        return sorted((f.get('fn') or '', tuple(f.get('labels') or []), f.get('kind')) for f in a.get('failures', []))
     attempts = [res]
     for seed in (7, 1234):
         nxt = run_verus_once(unit_path, canary, seed=seed)
@@ -62,6 +64,8 @@ def run_verus(unit_path, canary=False):
         if nxt.get('status') == 'ok':
             nxt['retries'] = len(attempts) - 1
             return nxt
+        if nxt.get('status') == 'failed' and res.get('status') == 'failed' and fkeys(nxt) == fkeys(res) and not nxt.get('undecided_fns'):
+            break   # the same definite failures under another seed: no need for a third attempt
     # keep only failures that every attempt reports (same function + same label set / kind)
     def key(f):
         return (f.get('fn'), tuple(f.get('labels') or []), f.get('kind') if not f.get('labels') else 'clause')
